@@ -813,6 +813,13 @@ def P(k):
     return ('prim', None, k)
 
 
+def _big_enum(n, dup=None):
+    """ENUMERATED with n explicitly numbered items i(i); dup = (i, j): item j repeats the value of item i"""
+    items = [('i%d' % k, k) for k in range(n)]
+    if dup: items[dup[1]] = ('i%d' % dup[1], dup[0])
+    return ('enum', None, items, False, [])
+
+
 WITNESSES = [
     # id, description, module, what the property demands
     ('enum-numbering-rejects-valid',
@@ -1081,6 +1088,15 @@ def run(ctx, only_modules=None):
     ]
     ctx.log('K: %s' % kstat)
     ctx.log('P: cases=%d failures=%d grey=%d' % (pstat['cases'], pstat['failures'], pstat['grey']))
+
+
+# large enumerations: the table of used values in asn1f_fix_enum grows in steps of 50 entries; a repeated value must be found
+# wherever its first occurrence sits (at, before and after every growth step)
+FORMER_WITNESSES += [('big-enum-%d-dup-%d-%d' % (n, i, j), 'ENUMERATED with %d items, item %d repeats the value of item %d' % (n, j, i),
+                      ('E', [('T0', _big_enum(n, (i, j)))]), 'reject')
+                     for n, i, j in [(60, 49, 59), (60, 50, 59), (60, 51, 59), (60, 0, 59), (120, 50, 119), (120, 99, 119), (120, 100, 119),
+                                     (120, 101, 119), (120, 102, 119), (160, 150, 159), (160, 151, 159), (160, 152, 159)]]
+FORMER_WITNESSES += [('big-enum-%d-distinct' % n, 'ENUMERATED with %d distinct items' % n, ('E', [('T0', _big_enum(n))]), 'accept') for n in (60, 120, 160)]
 
 
 def finding_ids(f):
